@@ -98,7 +98,8 @@ def make(dt, mod, fname):
     class FieldFn(Contract):
         id = "Field_%s_%s" % (mod, fname)
         fn = "gfapy/field/%s.py::%s" % (mod, fname)
-        props = ("C04", "C07", "C18") if fname != "unsafe_decode" else ("C07", "C18")
+        TAG_MODULES = ("integer", "float", "string", "char", "json", "byte_array", "numeric_array")
+        props = (("C04", "C07", "C18") + (("C20",) if mod in TAG_MODULES else ())) if fname != "unsafe_decode" else ("C07", "C18")
         fragment = "S"
         doc = ("%s.%s: accepts exactly the oracle grammar of datatype %s on all strings (modulo the listed ≈ cells); "
                "only gfapy.Error subclasses escape for any string" % (mod, fname, dt))
